@@ -55,7 +55,10 @@ def read_trace(path: Path) -> list[dict]:
             for line in fh:
                 line = line.strip()
                 if line:
-                    out.append(json.loads(line))
+                    try:
+                        out.append(json.loads(line))
+                    except ValueError:
+                        out.append({"record_type": "<unparsable-line>", "raw": line[:400]})
     return out
 
 
@@ -64,7 +67,16 @@ def read_trace_files(path: Path) -> dict[str, list[dict]]:
     out = {}
     for fn in files:
         with open(fn) as fh:
-            out[os.path.basename(fn)] = [json.loads(l) for l in fh if l.strip()]
+            recs = []
+            for l in fh:
+                if not l.strip():
+                    continue
+                try:
+                    recs.append(json.loads(l))
+                except ValueError:
+                    # not JSON: kept as a marker record so that the trace oracles can report it instead of crashing the harness
+                    recs.append({"record_type": "<unparsable-line>", "raw": l[:400]})
+            out[os.path.basename(fn)] = recs
     return out
 
 
